@@ -1004,7 +1004,7 @@ pub fn judge_pair_ex(kind: &str, idx: u64, rk: RK, pa: &Program, pb: &Program, t
 const CORE_TARGETS: usize = 4; // c (char), X, Y, s (short)
 const CORE_FORMS: usize = 16;
 const CORE_TESTS: usize = 6;
-const CORE_SPECIALS: usize = 18;
+const CORE_SPECIALS: usize = 38;
 
 pub fn core_len() -> u64 {
     (CORE_TARGETS * CORE_FORMS * CORE_TESTS + CORE_SPECIALS) as u64
@@ -1075,6 +1075,51 @@ fn core_pair(idx: u64) -> Option<(RK, Program, Program, LV)> {
                 pb.funcs.push(Func { name: "f".into(), ret: None, params: vec![], body: fbody.clone(), inline: false, interrupt: false, proto_first: false });
                 let pb = core_main(pb, vec![pre, Stmt::Block(fbody), test]);
                 return Some((RK::CallInline, pa, pb, reg));
+            }
+            18..=25 => {
+                // if (!(c OP d)) r = 1; else { if (x) r = 2; else r = 3; }   <->   if (c OP d) { if (x) .. } else r = 1;
+                // (x one of the operands: what the flags describe when the else part is entered)
+                let j = k - 18;
+                let op = if j % 2 == 0 { BinOp::LOr } else { BinOp::LAnd };
+                let x = if (j / 2) % 2 == 0 { 1usize } else { 0usize };
+                let inner_c = if (j / 4) % 2 == 0 { lvv(x) } else { Expr::Bin(BinOp::Eq, Box::new(lvv(x)), Box::new(Expr::Num(0))) };
+                let inner = Stmt::If(inner_c, Box::new(set(2, 2)), Some(Box::new(set(2, 3))));
+                let c = Expr::Bin(op, Box::new(lvv(0)), Box::new(lvv(1)));
+                let notc = Expr::Un(UnOp::Not, Box::new(Expr::Paren(Box::new(c.clone()))));
+                (
+                    vec![Stmt::If(notc, Box::new(set(2, 1)), Some(Box::new(Stmt::Block(vec![inner.clone()]))))],
+                    vec![Stmt::If(c, Box::new(Stmt::Block(vec![inner])), Some(Box::new(set(2, 1))))],
+                    RK::IfSwap,
+                )
+            }
+            26..=37 => {
+                // a comparison as the initialiser of a local variable (the parser of initialisers is
+                // a table of its own), mirrored; and as the argument of a call versus in place
+                let j = k - 26;
+                let ops = [BinOp::Lt, BinOp::Le, BinOp::Gt, BinOp::Ge, BinOp::Eq, BinOp::Ne];
+                let op = ops[(j % 6) as usize];
+                let mir = match op {
+                    BinOp::Lt => BinOp::Gt,
+                    BinOp::Le => BinOp::Ge,
+                    BinOp::Gt => BinOp::Lt,
+                    BinOp::Ge => BinOp::Le,
+                    o => o,
+                };
+                let mk = |e: Expr| {
+                    let mut q = core_base();
+                    let l = q.vars.len();
+                    q.vars.push(VarDecl { name: "l0".into(), kind: VarKind::Scalar(Ty::U8), mem: MemClass::Zp, scope: Scope::Local(0) });
+                    core_main(q, vec![Stmt::Block(vec![Stmt::Decl(l, Some(e)), Stmt::Expr(Expr::Assign(LV::Var(2), Box::new(Expr::Lv(LV::Var(l)))))])])
+                };
+                let direct = Expr::Bin(op, Box::new(lvv(0)), Box::new(lvv(1)));
+                let mirrored = Expr::Bin(mir, Box::new(lvv(1)), Box::new(lvv(0)));
+                if j < 6 {
+                    return Some((RK::RelMirror, mk(direct), mk(mirrored), LV::Var(0)));
+                }
+                // r = (c OP d);  as a statement, versus through the local
+                let pa = mk(direct.clone());
+                let pb = core_main(core_base(), vec![Stmt::Expr(Expr::Assign(LV::Var(2), Box::new(direct)))]);
+                return Some((RK::RelMirror, pa, pb, LV::Var(0)));
             }
             10..=17 => {
                 // v = ..; f(); if (v) ..   <->   f's body in place, f inline or not, touching v or not
